@@ -226,6 +226,29 @@ Section K.
       rewrite E. reflexivity.
     - cbn [rekey OptTotal.rok]. rewrite IHa, IHb, IHd. reflexivity.
   Qed.
+
+  Variable cached : str -> Z -> bool.
+  Hypothesis cached_name : forall n k k', cached n k = cached n k'.
+
+  Lemma kleene_rekey : forall t, kleene fetch custom cached (rekey pc t) = kleene fetch custom cached t.
+  Proof.
+    induction t as [v|n k|name fast cs IH|a b d IHa IHb IHd] using tree_ind2; try reflexivity.
+    - cbn [rekey Tree.kleene]. rewrite (cached_name n _ k), (fetch_name n _ k). reflexivity.
+    - cbn [rekey]. rewrite !kleene_op, map_map.
+      assert (E : map (fun x => kleene fetch custom cached (rekey pc x)) cs = map (kleene fetch custom cached) cs).
+      { induction IH as [|x l Hx _ IHl]; [reflexivity|]. cbn [map]. rewrite Hx, IHl. reflexivity. }
+      rewrite E. reflexivity.
+    - cbn [rekey Tree.kleene]. rewrite IHa, IHb, IHd. reflexivity.
+  Qed.
+
+  Lemma subs_ok_rekey : forall t, subs_ok custom fetch cached t -> subs_ok custom fetch cached (rekey pc t).
+  Proof.
+    induction t as [v|n k|name fast cs IH|a b d IHa IHb IHd] using tree_ind2; intros H; try exact I.
+    - cbn [rekey]. apply subs_ok_op in H. apply subs_ok_op. rewrite Forall_map.
+      induction IH as [|x l Hx _ IHl]; [constructor|]. inversion H as [|? ? (H1 & v & H2) H3]; subst.
+      constructor; [|apply IHl; exact H3]. split; [apply Hx; exact H1|exists v; rewrite kleene_rekey; exact H2].
+    - destruct H as (Ha & Hb & Hd). cbn [rekey TryFacts.subs_ok]. auto.
+  Qed.
 End K.
 
 Print Assumptions generate_text_parses.
